@@ -30,8 +30,9 @@ PropertyHolds ==
 
 TraceNew ==
     /\ IsEvent("New")
-    /\ New(Ev.o) /\ o0' = Ev.o /\ ever' = {}
-    /\ Ev.o % W = 0
+    \* positions are logged relative to the initial offset (translation invariance): o0 = 0
+    /\ New(0) /\ o0' = 0 /\ ever' = {}
+    /\ Ev.omod = 0
     /\ StateMatches(Ev.st) /\ Aligned' /\ InRange'
 
 TraceSet ==
@@ -60,7 +61,7 @@ Expected1(j) == IF j < o0 \/ j < offset \/ j \in ever THEN 1 ELSE 0
 
 TraceGet ==
     /\ IsEvent("Get")
-    /\ Stored(Ev.j) /\ Ev.j >= 0
+    /\ Stored(Ev.j)
     /\ ToSet(Ev.r) = GetVal(Ev.j)
     /\ ToSet(Ev.r) = (IF Expected1(Ev.j) = 1 THEN {Ev.j % W} ELSE {})
     /\ UNCHANGED <<tbvars, o0, ever>>
@@ -68,7 +69,7 @@ TraceGet ==
 
 TraceGet1 ==
     /\ IsEvent("Get1")
-    /\ Stored(Ev.j) /\ Ev.j >= 0
+    /\ Stored(Ev.j)
     /\ ToSet(Ev.r) = (IF Get1Val(Ev.j) = 1 THEN {0} ELSE {})
     /\ Get1Val(Ev.j) = Expected1(Ev.j)
     /\ UNCHANGED <<tbvars, o0, ever>>
